@@ -45,6 +45,10 @@ type Rig struct {
 	Port  int
 	Opts  Options
 	fresh bool
+
+	httpMu sync.Mutex
+	https  []*handlers.HTTP // listeners started through StartHTTP
+	ports  []int            // ports claimed for them
 }
 
 var (
@@ -85,6 +89,8 @@ func FreePort() int {
 		f.Close()
 		l4, err := net.Listen("tcp", fmt.Sprintf("127.0.0.1:%d", port))
 		if err != nil {
+			// somebody outside the pool listens there; keep the claim so that nobody
+			// probes it again for a while (stale claims are recycled above)
 			continue
 		}
 		l4.Close()
@@ -238,10 +244,40 @@ func New(o Options) (*Rig, error) {
 	return r, nil
 }
 
-// Close removes the temp directory of a fresh rig (listeners of a Full rig keep running
-// until the process exits; workers are short-lived processes).
+// Close stops the HTTP listeners the rig started through StartHTTP (closing the socket at
+// once instead of Stop's five second grace period), gives their port claims back and
+// removes the temp directory of a fresh rig. The teamserver port of a Full rig stays
+// bound until the process exits.
 func (r *Rig) Close() {
 	os.Chdir("/")
+	r.httpMu.Lock()
+	hs, ports := r.https, r.ports
+	r.https, r.ports = nil, nil
+	r.httpMu.Unlock()
+	for i, h := range hs {
+		// the server object is created by the listener goroutine; give it a moment
+		var srv *http.Server
+		for w := 0; w < 400; w++ {
+			if srv = h.Server; srv != nil {
+				break
+			}
+			time.Sleep(500 * time.Microsecond)
+		}
+		if srv == nil {
+			continue // never came up: keep the claim, the goroutine may still bind it
+		}
+		srv.Close()
+		// the claim is given back once the port can be bound again
+		for w := 0; w < 400; w++ {
+			l, err := net.Listen("tcp", fmt.Sprintf("127.0.0.1:%d", ports[i]))
+			if err == nil {
+				l.Close()
+				ReleasePort(ports[i])
+				break
+			}
+			time.Sleep(500 * time.Microsecond)
+		}
+	}
 	if !r.Opts.Full {
 		// an assembled rig never bound its teamserver port
 		ReleasePort(r.Port)
@@ -254,8 +290,10 @@ func (r *Rig) Close() {
 // StartHTTP starts a real HTTP listener through ListenerStart and returns its handler
 // object (whose Teamserver field and GinEngine are exported).
 func (r *Rig) StartHTTP(cfg handlers.HTTPConfig) (*handlers.HTTP, error) {
+	claimed := 0
 	if cfg.PortBind == "" {
-		cfg.PortBind = strconv.Itoa(FreePort())
+		claimed = FreePort()
+		cfg.PortBind = strconv.Itoa(claimed)
 	}
 	if cfg.HostBind == "" {
 		cfg.HostBind = "127.0.0.1"
@@ -272,6 +310,12 @@ func (r *Rig) StartHTTP(cfg handlers.HTTPConfig) (*handlers.HTTP, error) {
 	for _, l := range r.TS.Listeners {
 		if l.Name == cfg.Name {
 			if h, ok := l.Config.(*handlers.HTTP); ok {
+				if claimed > 0 {
+					r.httpMu.Lock()
+					r.https = append(r.https, h)
+					r.ports = append(r.ports, claimed)
+					r.httpMu.Unlock()
+				}
 				return h, nil
 			}
 		}
